@@ -76,6 +76,9 @@ type LibFn struct {
 	// AnyArgs: the arguments are neither typed nor rendered (error constructors whose message does
 	// not matter); what they would evaluate — including a panic inside them — is not modelled.
 	AnyArgs bool
+	// Check: a Lean Bool over the same %i that must hold, else the call panics (nil map entry
+	// dereferenced, …); it is emitted with the bounds tests of the statement.
+	Check string
 }
 
 // StateVar is a mutable receiver field (or other assignable path): a parameter of the Lean function
@@ -305,6 +308,8 @@ func (t *bodyTr) exprKey(e ast.Expr) string {
 		return t.exprKey(x.Fun) + "(" + strings.Join(args, ", ") + ")"
 	case *ast.StarExpr:
 		return "*" + t.exprKey(x.X)
+	case *ast.IndexExpr:
+		return t.exprKey(x.X) + "[" + t.exprKey(x.Index) + "]"
 	case *ast.ArrayType:
 		if x.Len == nil {
 			return "[]" + t.exprKey(x.Elt)
@@ -524,6 +529,19 @@ func (t *bodyTr) expr(e ast.Expr, sc bscope, want string) Val {
 		}
 		return Val{t.unsupported("ident_" + LeanIdentPlain(x.Name)), want}
 	case *ast.SelectorExpr:
+		if ix, ok := x.X.(*ast.IndexExpr); ok {
+			// field of a map entry, e.g. `recv.PrivilegeLevels[k].Name`: FnSpec.Funcs key `recv.PrivilegeLevels[_].Name`
+			if f, ok := t.spec.Funcs[t.exprKey(ix.X)+"[_]."+x.Sel.Name]; ok && len(f.Args) == 1 && len(f.Ret) == 1 {
+				k := t.expr(ix.Index, sc, f.Args[0])
+				if k.Ty != f.Args[0] {
+					k.Lean = t.unsupported("map_key_type")
+				}
+				if f.Check != "" {
+					t.checks = append(t.checks, t.guarded(strings.ReplaceAll(f.Check, "%0", k.Lean)))
+				}
+				return Val{strings.ReplaceAll(f.Tmpl, "%0", k.Lean), f.Ret[0]}
+			}
+		}
 		if id, ok := x.X.(*ast.Ident); ok {
 			if _, _, local := sc.lookup(id.Name); !local {
 				if id.Name == "time" {
@@ -1987,7 +2005,7 @@ func GenBody(spec *FnSpec) string {
 		}
 		return true
 	})
-	sc := bscope{}
+	sc := bscope{depth: 1} // parameters and named results live in the scope of the function body
 	var binders []string
 	if t.hasFuel {
 		binders = append(binders, "(fuel : Nat)")
@@ -2013,6 +2031,7 @@ func GenBody(spec *FnSpec) string {
 		}
 	}
 	var resLean []string
+	named := ""
 	if fd.Type.Results != nil {
 		ri := 0
 		for _, f := range fd.Type.Results.List {
@@ -2037,6 +2056,17 @@ func GenBody(spec *FnSpec) string {
 			for i := 0; i < k; i++ {
 				t.resTys = append(t.resTys, ty)
 				resLean = append(resLean, leanTy(ty))
+			}
+			// named results start as zero values
+			for _, nm := range f.Names {
+				zero := map[string]string{"int": "(0 : Int)", "bool": "false", "bytes": "([] : Bytes)",
+					"list": "([] : List Bytes)", "error": "(none : Go.Error)"}[ty]
+				if zero == "" || nm.Name == "_" {
+					continue
+				}
+				var ln string
+				sc, ln = t.declare(nm.Name, ty, sc)
+				named += fmt.Sprintf("  let %s : %s := %s\n", ln, leanTy(ty), zero)
 			}
 		}
 	}
@@ -2065,7 +2095,8 @@ func GenBody(spec *FnSpec) string {
 			return ind + t.unsupported("missing_return") + "\n"
 		},
 	}
-	b.WriteString(t.seq(fd.Body.List, sc.push(), ctx, "  "))
+	b.WriteString(named)
+	b.WriteString(t.seq(fd.Body.List, sc, ctx, "  "))
 	// auxiliary loop definitions come first (innermost first)
 	extra := ""
 	if t.hasFuel {
